@@ -182,7 +182,10 @@ fn add_types_recursive(
     module: &naga::Module,
     ty: Handle<Type>,
 ) {
-    types.insert(ty);
+    // Types can be shared, so only visit each type once.
+    if !types.insert(ty) {
+        return;
+    }
 
     match &module.types[ty].inner {
         naga::TypeInner::Pointer { base, .. } => add_types_recursive(types, module, *base),
